@@ -164,6 +164,7 @@ class SimFS:
         self.stats = {}
         self.next_fail = None     # write index to fail on the next open-for-write
         self.last_nwrites = None
+        self.write_through = False
 
     def open_write(self, path):
         f = SimFile(self, path, self.next_fail)
@@ -175,6 +176,11 @@ class SimFS:
         self.last_nwrites = f.nwrites
         if f.failed:
             self.stats['fault.torn_file_left'] = self.stats.get('fault.torn_file_left', 0) + 1
+        if self.write_through and os.path.isdir(os.path.dirname(f.path)):
+            # keep a real file with the durable content too, written the way open(path, 'wb') writes it (truncate,
+            # then write), so that code which maps the file (torch.load(mmap=True)) sees what a real disk would show
+            with open(f.path, 'wb') as fh:
+                fh.write(self.files[f.path])
 
     def open_read(self, path):
         if path not in self.files:
@@ -209,6 +215,12 @@ class StorageProxy:
                 # the write side bypassed the seam (a refactor opened the file itself): fall back to the real file
                 self._fs.stats['probe.storage_seam_bypassed_on_load'] = self._fs.stats.get('probe.storage_seam_bypassed_on_load', 0) + 1
                 return torch.load(f, *a, **k)
+            if k.get('mmap') and self._fs.write_through and os.path.exists(str(f)):
+                # memory-mapped load needs a real file: the write-through copy holds the durable bytes
+                self._fs.stats['probe.mmap_load'] = self._fs.stats.get('probe.mmap_load', 0) + 1
+                if str(f) not in self._fs.files:
+                    self._fs.open_read(str(f))
+                return torch.load(str(f), *a, **k)
             return torch.load(self._fs.open_read(str(f)), *a, **k)
         return torch.load(f, *a, **k)
 
